@@ -276,7 +276,24 @@ class _Budgeted:
         if goal.op != "c" and left < 3:
             return "unknown", "case budget of %d s used up" % self.budget
         limit = min(timeout_s or self.s.timeout_s, max(3, int(left)))
-        return self.s.check(goal, want_model=want_model, timeout_s=limit, abstract=abstract)
+        r = self.s.check(goal, want_model=want_model, timeout_s=limit, abstract=abstract)
+        if r[0] == "unknown" and goal.op != "c" and self.s.kind.startswith("z3") and limit >= 30:
+            # z3's run time on these goals varies by an order of magnitude with the order in which the terms are
+            # emitted; before giving up, the other solver gets the same goal (same budget rules)
+            left = self.deadline - time.time()
+            if left > 10:
+                alt = _W.get("alt")
+                if alt is None:
+                    try:
+                        alt = _W["alt"] = T.Solver("cvc5", timeout_s=self.s.timeout_s)
+                    except Exception:
+                        alt = _W["alt"] = False
+                if alt:
+                    r2 = alt.check(goal, want_model=want_model, timeout_s=min(limit, max(3, int(left))), abstract=False)
+                    if r2[0] != "unknown":
+                        _W["alt_used"] = _W.get("alt_used", 0) + 1
+                        return r2
+        return r
 
 
 def _check_case(case, res):
@@ -308,6 +325,11 @@ def _check_case(case, res):
         if case.expect_reject:
             return {"status": "accepted_unexpectedly", "detail": "front end accepted a program the book rejects"}
         prog = M.Program(d)
+        rootn = d["nodes"][d["root"]]
+        if d["types"][rootn["s"]]["w"] or d["types"][rootn["t"]]["w"]:
+            # what `commit()` would turn into a program that is not of type 1 -> 1 (the library only `expect`s it)
+            return {"status": "rejected", "detail": "compile: the emitted program has a %d-bit input and a %d-bit output instead of type 1 -> 1" % (
+                d["types"][rootn["s"]]["w"], d["types"][rootn["t"]]["w"])}
         fixed, fixed_raw = {}, {}
         for name, (lty, k) in case.wit_fixed.items():
             elems = []
